@@ -45,6 +45,7 @@ public:
   static inline rlbox_bm* cur_sandbox = nullptr;
   static inline uint32_t cur_slot = 0;
 
+  void clear_symbols() { nsyms = 0; }   // "another library is loaded": the next incarnation resolves names afresh
   void add_symbol(const char* name, void* fn, uint32_t handle) { if (nsyms >= 16) verif_abort("BM: symbol table full"); syms[nsyms++] = Sym{ name, fn, handle }; }
 
   static bool streq(const char* a, const char* b)
